@@ -118,6 +118,43 @@ def term_vars(t):
     return r
 
 
+_FINE_CACHE = {}
+
+
+def term_vars_fine(t):
+    """Like term_vars, but a read `Select(A, idx)` of an array constant counts as the pseudo-symbol
+    (A, idx) and its index is not descended into.  Only used to pick a *subset* of the path condition
+    for a first, cheap proof attempt (any subset of hypotheses is sound for proving)."""
+    k = t.get_id()
+    r = _FINE_CACHE.get(k)
+    if r is not None:
+        return r[1]
+    out = set()
+    seen = set()
+    stack = [t]
+    while stack:
+        x = stack.pop()
+        i = x.get_id()
+        if i in seen:
+            continue
+        seen.add(i)
+        if z3.is_app(x):
+            d = x.decl()
+            if d.kind() == z3.Z3_OP_SELECT and z3.is_const(x.arg(0)) and x.arg(0).decl().kind() == z3.Z3_OP_UNINTERPRETED:
+                out.add((x.arg(0).decl().name(), x.arg(1).get_id()))
+                continue
+            if d.kind() == z3.Z3_OP_UNINTERPRETED:
+                out.add(d.name())
+            stack.extend(x.children())
+        elif z3.is_quantifier(x):
+            stack.append(x.body())
+    r = frozenset(out)
+    if len(_FINE_CACHE) > 200000:
+        _FINE_CACHE.clear()
+    _FINE_CACHE[k] = (t, r)
+    return r
+
+
 class Path:
     FEAS_TIMEOUT_MS = 5000
     OBL_TIMEOUT_MS = 20000
@@ -151,13 +188,13 @@ class Path:
         if why:
             self.assumed.append(why)
 
-    def relevant(self, t):
+    def relevant(self, t, vars_of=term_vars):
         """Constraint-independence slicing: the path-condition conjuncts that share symbols
         (transitively) with t.  Sound because the path condition as a whole is satisfiable
         (every branch taken was checked feasible), so conjuncts over disjoint symbols cannot
         affect the satisfiability of t."""
-        vs = set(term_vars(t))
-        pending = [(c, term_vars(c)) for c in self.pc]
+        vs = set(vars_of(t))
+        pending = [(c, vars_of(c)) for c in self.pc]
         chosen = []
         changed = True
         while changed and pending:
@@ -292,7 +329,23 @@ class Path:
             nt = z3.Not(cj)
             # a literally false obligation shares no symbol with the path condition: take all of it so
             # that the counter-model is a model of the path (needed for the native replay)
-            for p in (self.pc if z3.is_false(cj) else self.relevant(nt)):
+            hyps = self.pc if z3.is_false(cj) else self.relevant(nt)
+            if not z3.is_false(cj) and len(hyps) > 8:
+                # first attempt with a finer slice (array cells instead of whole arrays): proving from a
+                # subset of the hypotheses is sound; anything but `unsat` falls through to the full slice
+                fine = self.relevant(nt, term_vars_fine)
+                if len(fine) < len(hyps):
+                    s0 = z3.Solver()
+                    s0.set("timeout", 2000)
+                    for p in fine:
+                        s0.add(p)
+                    s0.add(nt)
+                    t0 = time.time()
+                    r0 = s0.check()
+                    total += time.time() - t0
+                    if r0 == z3.unsat:
+                        continue
+            for p in hyps:
                 s.add(p)
             s.add(nt)
             t0 = time.time()
@@ -751,7 +804,9 @@ class Interp:
                 co = Coroutine(fn, lambda: self.run_function(fn, args, kwargs))
                 co.args, co.kwargs = list(args), dict(kwargs)
                 return co
-            if self.merge_pure and not self.in_merge and _any_sym(args, kwargs) and purity.func_pure(self, fn):
+            # (nested pure calls are merged too - inner first - so that a pure helper that calls n pure
+            # two-way helpers is one path with ite terms instead of 2^n paths)
+            if self.merge_pure and _any_sym(args, kwargs) and purity.func_pure(self, fn):
                 r = self.merged_call(fn, args, kwargs)
                 if r is not NotImplemented:
                     return r
@@ -777,6 +832,7 @@ class Interp:
         outcomes = []
         work = [[]]
         names0 = sym._ctr[0]
+        was_in_merge = self.in_merge
         self.in_merge = True
         try:
             while work:
@@ -809,7 +865,7 @@ class Interp:
                 assumes = [t for t, kd in zip(child.pc[base:], child.pc_kind[base:]) if kd == "a"]
                 outcomes.append((conds, assumes, v, list(child.assumed)))
         finally:
-            self.in_merge = False
+            self.in_merge = was_in_merge
         if not outcomes:
             raise PathEnd()
         vals = [o[2] for o in outcomes]
@@ -1074,7 +1130,7 @@ class Interp:
                 raise self.exc("IndexError", "list assignment index out of range")
             return
         if isinstance(obj, dict):
-            if is_sym(idx):
+            if is_sym(idx) or any(is_sym(k) for k in obj.keys()):
                 for k in list(obj.keys()):
                     if self.path.branch(self.py_eq(k, idx)):
                         obj[k] = v
